@@ -470,6 +470,7 @@ fn judge(c: &Case, r: &Run) -> Option<(String, String)> {
         }
     }
     let faulty = c.limit.is_some();
+    let stderr_redirected = c.redirs.iter().any(|rd| rd.target() == 2);
     let exit_snap = snaps.get("exit").cloned();
     let after = snaps.get("after").cloned();
     let inside = snaps.get("in").or(snaps.get("exec")).cloned();
@@ -551,7 +552,7 @@ fn judge(c: &Case, r: &Run) -> Option<(String, String)> {
             if snaps.contains_key("in") || snaps.contains_key("exec") {
                 return Some(("ran-despite-error".into(), "command ran although a redirection failed".into()));
             }
-            if r.stderr.is_empty() {
+            if r.stderr.is_empty() && !stderr_redirected {
                 return Some(("no-diagnostic".into(), "failed redirection without a diagnostic".into()));
             }
             if c.kind.is_special() {
@@ -572,7 +573,10 @@ fn judge(c: &Case, r: &Run) -> Option<(String, String)> {
             }
         }
     }
-    // (ii) files
+    // (ii) files (diagnostics may legitimately land in a file when fd 2 is redirected)
+    if stderr_redirected {
+        return None;
+    }
     let got = file_state(r);
     for (name, want) in &m.files {
         let want = want.as_ref().map(|(_, c)| c.clone());
